@@ -70,6 +70,48 @@ func addrEscapes(v ssa.Value, depth int) bool {
 	return false
 }
 
+// neverReassigned: the captured variable is written exactly once in the enclosing function (its initialisation)
+// and never inside the closure, so its content at closure creation is its content for ever.
+func neverReassigned(al *ssa.Alloc, clo *ssa.Function, idx int) bool {
+	stores := 0
+	if refs := al.Referrers(); refs != nil {
+		for _, r := range *refs {
+			switch x := r.(type) {
+			case *ssa.Store:
+				if x.Addr == al {
+					stores++
+				}
+			case *ssa.MakeClosure:
+				f := x.Fn.(*ssa.Function)
+				for i, b := range x.Bindings {
+					if b != al || i >= len(f.FreeVars) {
+						continue
+					}
+					if fr := f.FreeVars[i].Referrers(); fr != nil {
+						for _, u := range *fr {
+							switch y := u.(type) {
+							case *ssa.Store:
+								if y.Addr == f.FreeVars[i] {
+									return false
+								}
+							case *ssa.UnOp, *ssa.DebugRef:
+							default:
+								return false // passed on / address taken further: give up
+							}
+						}
+					}
+				}
+			case *ssa.UnOp, *ssa.DebugRef:
+			default:
+				return false
+			}
+		}
+	}
+	_ = clo
+	_ = idx
+	return stores <= 1
+}
+
 // closureEscapes: the closure value is used other than as the callee of a direct call.
 func closureEscapes(mc *ssa.MakeClosure) bool {
 	refs := mc.Referrers()
@@ -438,10 +480,27 @@ func (c *Ctx) execInstr(fr *Frame, ins ssa.Instruction, st *State, reach string)
 	case *ssa.MakeClosure:
 		fn := x.Fn.(*ssa.Function)
 		var binds []Val
-		for _, b := range x.Bindings {
-			binds = append(binds, c.operand(fr, b, st))
+		var snaps []Val
+		for i, b := range x.Bindings {
+			bv := c.operand(fr, b, st)
+			binds = append(binds, bv)
+			var snap Val
+			if al, ok := b.(*ssa.Alloc); ok && neverReassigned(al, fn, i) {
+				if pt, ok := al.Type().Underlying().(*types.Pointer); ok {
+					if srt := c.sorts.Of(pt.Elem()); srt == "Int" || srt == "Bool" || srt == "Slice" || srt == "Str" {
+						l := bv.L
+						if l == nil && bv.T != "" {
+							l = c.asLoc(bv, al.Type(), st)
+						}
+						if l != nil {
+							snap = Val{T: c.load(l, st), Typ: pt.Elem()}
+						}
+					}
+				}
+			}
+			snaps = append(snaps, snap)
 		}
-		fr.vals[x] = Val{Fn: fn, Binds: binds, Typ: x.Type()}
+		fr.vals[x] = Val{Fn: fn, Binds: binds, Snaps: snaps, Typ: x.Type()}
 	case *ssa.Slice:
 		c.execSlice(fr, x, st, reach)
 	case *ssa.MakeSlice:
